@@ -220,17 +220,23 @@ class Squid:
                 return ""
 
     def sanitizer_reports(self):
-        """list of (kind, text) from ASan / UBSan log files of all processes of this instance"""
+        """list of (kind, text) from ASan / UBSan log files of all processes of this instance.
+        ASan and UBSan share one runtime and ONE report file per process: whichever reports first opens it (under its own
+        log_path), and later reports of the other kind land in the same file. Every file is therefore parsed for both kinds."""
         reps = []
-        for f in glob.glob(f"{self.work}/asan.*"):
+        for f in sorted(glob.glob(f"{self.work}/asan.*") + glob.glob(f"{self.work}/ubsan.*")):
             t = open(f, "rb").read().decode("latin1")
-            if t.strip():
-                reps.append(("asan", t))
-        for f in glob.glob(f"{self.work}/ubsan.*"):
-            t = open(f, "rb").read().decode("latin1")
-            for blk in re.split(r"(?m)^(?=\S+:\d+:\d+: runtime error:)", t):
+            if not t.strip():
+                continue
+            rest = t
+            for m in re.finditer(r"(?ms)^(?:=+\n)?==\d+==ERROR: (?:AddressSanitizer|LeakSanitizer).*?(?:^==\d+==ABORTING\n|\Z)", t):
+                reps.append(("asan", m.group(0)))
+                rest = rest.replace(m.group(0), "")
+            for blk in re.split(r"(?m)^(?=\S+:\d+:\d+: runtime error:)", rest):
                 if "runtime error:" in blk:
                     reps.append(("ubsan", blk))
+                elif blk.strip() and os.path.basename(f).startswith("asan.") and "AddressSanitizer" in blk:
+                    reps.append(("asan", blk))      # anything else ASan wrote (e.g. a deadly-signal report without the ERROR line)
         return reps
 
     def fatal_lines(self):
